@@ -328,6 +328,8 @@ def step (ds : DS) (op impl : String) : DS × StepOut :=
 def stripMacro (op : String) : String :=
   match words op with
   | ["call", a, t, "m"] => s!"call {a} {t}"
+  -- ` d`: the same call issued through a `DerivedActorRef` (`get_derived`, converter closure)
+  | ["call", a, t, "d"] => s!"call {a} {t}"
   | ["fcall", a, f, t, "m"] => s!"fcall {a} {f} {t}"
   | _ => op
 
